@@ -23,6 +23,7 @@ package verifc07
 //
 //	inject id=<n> key=<k>  => ok              rm.Inject before the goroutines start (a pre-registered resource)
 //	close                  => closed=<ids|-> multi=<ids|-> err=<-|bad>   rm.Close() after all calls returned: which instances were closed
+//	corrupt key=<k>        => ok              (cacheNode) an undecodable cache entry under the key before the goroutines start
 //
 // panic=1 in the op: the user function panics (after its last stamp); panic=1 in the observation: the call
 // panicked (recovered by the harness goroutine).
@@ -169,6 +170,9 @@ type Target struct {
 	// returned: the value (Val, *Res or nil), fresh ("-" if the API has no such flag, else "0"/"1") and the error.
 	Invoke func(c *Call, fn func() (any, error)) (v any, fresh string, err error)
 	Inject func(key int, res *Res) // nil: not supported
+	// Corrupt (nil: not supported) puts an entry that cannot be decoded under the key before the calls start (cacheNode:
+	// a redis value that is not JSON - processCache deletes it and reports not-found, the row is loaded afresh)
+	Corrupt func(key int)
 	Close  func() error            // nil: not supported
 	Done   func()                  // nil, or releases what the section's object holds (timers, tickers)
 }
@@ -224,12 +228,15 @@ func RunSection(cfg verifh.Cfg, ops []string, mk func(cfg verifh.Cfg) Target) []
 	var calls []*Call
 	idx := map[*Call]int{}
 	type injectOp struct{ i, id, key int }
-	var injects []injectOp
+	var injects, corrupts []injectOp
 	closeAt := -1
 	for i, op := range ops {
 		if f := strings.Fields(op); len(f) > 0 && f[0] == "inject" && mode == "rm" {
 			ic := verifh.ParseCfg(op)
 			injects = append(injects, injectOp{i, ic.Int("id", -1), ic.Int("key", 0)})
+			continue
+		} else if len(f) > 0 && f[0] == "corrupt" && mode == "rm" {
+			corrupts = append(corrupts, injectOp{i, 0, verifh.ParseCfg(op).Int("key", 0)})
 			continue
 		} else if len(f) == 1 && f[0] == "close" && mode == "rm" && closeAt < 0 {
 			closeAt = i
@@ -261,6 +268,14 @@ func RunSection(cfg verifh.Cfg, ops []string, mk func(cfg verifh.Cfg) Target) []
 		res := &Res{ID: in.id}
 		allRes = append(allRes, res)
 		tg.Inject(in.key, res)
+		out[in.i] = "ok"
+	}
+	for _, in := range corrupts {
+		if tg.Corrupt == nil {
+			out[in.i] = "unsupported"
+			continue
+		}
+		tg.Corrupt(in.key)
 		out[in.i] = "ok"
 	}
 	heldKeys := map[int]bool{}
@@ -620,6 +635,16 @@ func Gen(r *verifh.Rng, nsec int, via string) []verifh.Section {
 				for key := 0; key < k; key++ {
 					if r.Chance(1, 2) {
 						ops = append(ops, fmt.Sprintf("inject id=%d key=%d", 1000+100*ob+key, 100*ob+key))
+					}
+				}
+			}
+		}
+		if via == "cacheNode.Take" && r.Chance(1, 4) {
+			// entries that cannot be decoded are in the cache before the calls start (processCache: delete, reload)
+			for ob := 0; ob < objs; ob++ {
+				for key := 0; key < k; key++ {
+					if r.Chance(1, 2) {
+						ops = append(ops, fmt.Sprintf("corrupt key=%d", 100*ob+key))
 					}
 				}
 			}
